@@ -26,6 +26,9 @@ type Prop struct {
 	Gen   func(t *rapid.T) interface{} // draws a JSON-serialisable case (pointer to struct)
 	New   func() interface{}           // empty case for JSON decoding (replay)
 	Check func(c interface{}, x *Ctx)  // executes the case against gengine and the oracle
+	// Enum, if set, lists a finite product of cases that the thorough tier enumerates
+	// completely (sharded) before the random search.
+	Enum func() []interface{}
 }
 
 var registry = map[string]*Prop{}
@@ -155,6 +158,8 @@ type stats struct {
 	Samples    []json.RawMessage `json:"samples"`
 	Known      map[string]int    `json:"known"`
 	Skipped    int               `json:"skipped"`
+	EnumTotal  int               `json:"enum_total"`
+	EnumDone   int               `json:"enum_done"`
 	WallS      float64           `json:"wall_s"`
 	start      time.Time
 }
@@ -254,6 +259,12 @@ func runProp(t *testing.T, id string) {
 	st.start = time.Now()
 	defer st.dump()
 	kf := knownFindings()
+	if p.Enum != nil && (thorough() || os.Getenv("VERIF_ENUM") != "") {
+		runEnum(t, p, kf)
+		if t.Failed() {
+			return
+		}
+	}
 	rapid.Check(t, func(rt *rapid.T) {
 		c := p.Gen(rt)
 		cj, err := json.Marshal(c)
@@ -280,6 +291,49 @@ func runProp(t *testing.T, id string) {
 			rt.Fatalf("property %s violated: [%s] %s", id, fresh[0].Sig, fresh[0].Msg)
 		}
 	})
+}
+
+// runEnum executes this shard's share of the property's finite enumeration.
+func runEnum(t *testing.T, p *Prop, kf map[string]string) {
+	shard, nshards := 0, 1
+	fmt.Sscan(os.Getenv("VERIF_SHARD"), &shard)
+	fmt.Sscan(os.Getenv("VERIF_NSHARDS"), &nshards)
+	if nshards < 1 {
+		nshards = 1
+	}
+	cases := p.Enum()
+	st.mu.Lock()
+	st.EnumTotal = len(cases)
+	st.mu.Unlock()
+	for i, c := range cases {
+		if i%nshards != shard {
+			continue
+		}
+		cj, _ := json.Marshal(c)
+		currentCaseJSON = cj
+		writeCurrent(p.ID, cj)
+		x := &Ctx{Prop: p.ID}
+		p.Check(c, x)
+		x.Class("enumerated")
+		st.record(x, cj)
+		st.mu.Lock()
+		st.EnumDone++
+		st.mu.Unlock()
+		var fresh []Violation
+		for _, v := range x.viol {
+			if _, ok := kf[p.ID+" "+v.Sig]; ok {
+				st.mu.Lock()
+				st.Known[v.Sig]++
+				st.mu.Unlock()
+				continue
+			}
+			fresh = append(fresh, v)
+		}
+		if len(fresh) > 0 {
+			writeJSON(filepath.Join(outDir(), "fail.json"), failFile{Prop: p.ID, Case: cj, Violations: fresh, Extra: x.extra, Kind: "violation"})
+			t.Fatalf("property %s violated (enumeration case %d): [%s] %s", p.ID, i, fresh[0].Sig, fresh[0].Msg)
+		}
+	}
 }
 
 // replayProp re-executes a saved case without rapid.
